@@ -318,16 +318,18 @@ func valueArg(v value.V, k Kind) dt.Arg {
 		}
 		return a
 	case "uint":
-		a := dt.I(int64(v.U))
 		switch k {
 		case UInt64:
-			a.Typ = "uint64"
+			return dt.U(v.U, "uint64")
 		case UInt32:
-			a.Typ = "uint32"
-		case UInt:
-			a.Typ = "uint"
+			return dt.U(v.U, "uint32")
+		case Float32, Float64:
+			return dt.F(float64(v.U))
 		}
-		return a
+		if v.U < 1<<31 {
+			return dt.I(int64(v.U))
+		}
+		return dt.U(v.U, "uint")
 	case "float":
 		a := dt.F(v.F)
 		if k == Float32 {
